@@ -261,7 +261,8 @@ def run(ctx, repo, tier):
         if isinstance(e, ast.Name) and e.id in unpack_defs and e.id not in defs:
             return expand(unpack_defs[e.id], depth + 1)
         if isinstance(e, ast.Call) and isinstance(e.func, ast.Name) and e.func.id not in normaliser_functions(repo):
-            r_ = inline_helpers(repo, fd.module, e, skip=normaliser_functions(repo))
+            r_ = inline_helpers(repo, fd.module, e, skip=normaliser_functions(repo),
+                                local_funcs={n_.name: n_ for n_ in ast.walk(fd.node) if isinstance(n_, ast.FunctionDef) and n_ is not fd.node})
             if not (isinstance(r_, ast.Call) and isinstance(r_.func, ast.Name) and r_.func.id == e.func.id):
                 return expand(r_, depth + 1)
         return e
